@@ -80,8 +80,9 @@ def strip_stop(d, n):
     return n
 
 
-def subst(d, roots, mapping):
-    """like DAG.substitute, but sub-terms below a mapped node are not visited (a mapped node is opaque)"""
+def subst(d, roots, mapping, drop_stops=False):
+    """like DAG.substitute, but sub-terms below a mapped node are not visited (a mapped node is opaque);
+    drop_stops=True additionally removes every stop node (detach / no_grad marker) of the rebuilt expressions"""
     out = dict(mapping)
     order = []
     seen = set(out)
@@ -112,7 +113,7 @@ def subst(d, roots, mapping):
         elif op == 'ipow':
             out[n] = d.ipow(out[a[0]], a[1])
         elif op == 'stop':
-            out[n] = d.stop(out[a[0]])
+            out[n] = out[a[0]] if drop_stops else d.stop(out[a[0]])
         elif op == 'ite':
             out[n] = d.ite(out[a[0]], out[a[1]], out[a[2]])
         elif op == 'uf':
@@ -146,7 +147,7 @@ def subst(d, roots, mapping):
 #                        definite" (leading principal minors > 0): recorded in trace.contracts.
 # ---------------------------------------------------------------------------------------------------
 from .tensor import (UnsupportedOp, _functional_name, _real_tensor, check_vals, handler, ids_of,  # noqa: E402
-                     val_of, wrap)
+                     new_vars, val_of, wrap)
 
 I64 = torch.int64
 
@@ -259,3 +260,41 @@ def h_cholesky(func, args, kwargs):
                         'symmetric_obligation': sym, 'posdef_obligation': minors})
     t.stubs_used.append('linalg.cholesky')
     return res
+
+
+@handler('cholesky_inverse')
+def h_cholesky_inverse(func, args, kwargs):
+    """functional CONTRACT stub of torch.cholesky_inverse(F, upper=False): the argument is read as a CHOLESKY FACTOR
+    (only its lower / upper triangle), the result X are fresh symbols named by a hash of the symbolic argument with the
+    documented contract  X (F F^T) = (F F^T) X = I   (upper=True: F^T F).  Recorded in trace.contracts."""
+    F = args[0]
+    upper = bool(args[1]) if len(args) > 1 else bool(kwargs.get('upper', False))
+    if F._ids.dim() != 2:
+        raise UnsupportedOp('batched cholesky_inverse')
+    t = cur()
+    d = t.dag
+    Xv = torch.cholesky_inverse(F._v, upper=upper)
+    n = F._ids.shape[-1]
+    Fi = F._ids.tolist()
+    T = [[(Fi[i][j] if ((i <= j) if upper else (i >= j)) else 0) for j in range(n)] for i in range(n)]
+    A = [[0] * n for _ in range(n)]
+    for i in range(n):
+        for j in range(n):
+            acc = 0
+            for m in range(n):
+                acc = d.add(acc, d.mul(T[m][i], T[m][j]) if upper else d.mul(T[i][m], T[j][m]))
+            A[i][j] = acc
+    X = new_vars(_functional_name('cholinv', F._ids.reshape(-1).tolist() + [int(upper)]), Xv.to(torch.float64))
+    Xi = X._ids.tolist()
+    left, right = {}, {}
+    for i in range(n):
+        for j in range(n):
+            a1 = a2 = 0
+            for m in range(n):
+                a1 = d.add(a1, d.mul(Xi[i][m], A[m][j]))
+                a2 = d.add(a2, d.mul(A[i][m], Xi[m][j]))
+            left[(i, j)] = d.eq(a1, 1 if i == j else 0)
+            right[(i, j)] = d.eq(a2, 1 if i == j else 0)
+    t.contracts.append({'kind': 'cholesky_inverse', 'F': F, 'X': X, 'upper': upper, 'left': left, 'right': right})
+    t.stubs_used.append('cholesky_inverse')
+    return X
